@@ -2,6 +2,7 @@ package generator
 
 import (
 	"fmt"
+	"math"
 	"reflect"
 	"strings"
 
@@ -369,6 +370,8 @@ func (v *numericValidator) genBoundary(
 		return
 	}
 
+	limit := v.boundOf(*boundary, sign == "<", exclusive)
+
 	// Technically, this should be based on schema version, but that information is lost.
 	comp := sign
 	if exclusive {
@@ -378,9 +381,9 @@ func (v *numericValidator) genBoundary(
 		sign += "="
 	}
 
-	out.Printlnf(`if %s%v %s%s %s {`, checkPointer, v.valueOf(*boundary), comp, pointerPrefix, value)
+	out.Printlnf(`if %s%v %s%s %s {`, checkPointer, limit, comp, pointerPrefix, value)
 	out.Indent(1)
-	out.Printlnf(`return fmt.Errorf("field %%s: must be %s %%v", "%s", %v)`, sign, v.jsonName, v.valueOf(*boundary))
+	out.Printlnf(`return fmt.Errorf("field %%s: must be %s %%v", "%s", %v)`, sign, v.jsonName, limit)
 	out.Indent(-1)
 	out.Printlnf("}")
 }
@@ -390,6 +393,21 @@ func (v *numericValidator) desc() *validatorDesc {
 		hasError:            true,
 		beforeJSONUnmarshal: false,
 	}
+}
+
+// boundOf returns the literal a bound is compared against. For an integer-typed field a fractional bound is
+// moved to the integer that admits exactly the same integers; truncating it toward zero admitted 1 for
+// "minimum": 1.5 and rejected 0 for "exclusiveMinimum": -0.5.
+func (v *numericValidator) boundOf(val float64, upper, exclusive bool) any {
+	if !v.roundToInt {
+		return val
+	}
+
+	if upper == exclusive {
+		return int64(math.Ceil(val))
+	}
+
+	return int64(math.Floor(val))
 }
 
 func (v *numericValidator) valueOf(val float64) any {
